@@ -114,7 +114,9 @@ extern "C" void harness(void)
 #endif
     size_t len = rtosc_amessage(msg, sizeof msg, loc + 1, tags, &arg);
     CHECK(len > 0, "C14 harness message built");
+    RT_BEGIN();
     P.cb(msg, d);
+    RT_END();
     const int nundo = d.nundo, nbcast = d.nbcast, nreply = d.nreply;
     if(query) {
         CHECK(nreply == 1 && nbcast == 0 && nundo == 0, "C14 a message without arguments produces exactly one reply");
